@@ -60,6 +60,25 @@ func (x *Exec) symParam(name string, t types.Type, nonNil bool) Val {
 	return v
 }
 
+// verifyUnit verifies one unit: own contract, refinement, or one case of a split contract.
+func (e *Engine) verifyUnit(u unit) *FuncResult {
+	if u.caseIdx > 0 {
+		own := e.cs.Funcs[u.key]
+		if own == nil {
+			return e.verifyFunc(u.key, nil, "")
+		}
+		c := *own
+		c.Requires = append(append([]Clause{}, own.Requires...), own.Cases[u.caseIdx-1])
+		c.Cases = nil
+		saved := e.cs.Funcs[u.key]
+		e.cs.Funcs[u.key] = &c
+		res := e.verifyFunc(u.key, nil, u.prefix)
+		e.cs.Funcs[u.key] = saved
+		return res
+	}
+	return e.verifyFunc(u.key, u.against, u.prefix)
+}
+
 // verifyFunc generates all obligations of one function against a contract.
 // If against != nil the body is checked against that (interface/field)
 // contract instead of its own (refinement); loops always use the own contract.
@@ -67,6 +86,15 @@ func (e *Engine) verifyFunc(key string, against *FuncContract, prefix string) (r
 	res = &FuncResult{Key: key}
 	fn := e.prog.Funcs[key]
 	own := e.cs.Funcs[key]
+	if own == nil && fn != nil && fn.Name() == "init" {
+		// the init unit proves the package's `axiom` declarations as postconditions of package initialisation
+		own = &FuncContract{Kind: "func", Key: key, Pkg: shortPkg(fn.Pkg.Pkg.Path()), Loops: map[int]*LoopContract{}, Flags: map[string]bool{"noframe": true}}
+		for _, ax := range e.cs.Axioms {
+			if longPkg(ax.Pkg) == fn.Pkg.Pkg.Path() {
+				own.Ensures = append(own.Ensures, Clause{Label: ax.Name, Expr: ax.Expr, Text: ax.Text})
+			}
+		}
+	}
 	if fn == nil {
 		res.Err = "contract-binding: function " + key + " not found in /repo"
 		return
@@ -77,6 +105,9 @@ func (e *Engine) verifyFunc(key string, against *FuncContract, prefix string) (r
 	}
 	fc := own
 	name := key
+	if against == nil && prefix != "" {
+		name = key + "/" + prefix
+	}
 	if against != nil {
 		// merged view: pre/post of the abstract contract, loops/flags of the own one
 		m := *against
@@ -136,6 +167,15 @@ func (e *Engine) verifyFunc(key string, against *FuncContract, prefix string) (r
 		for i, n := range against.Params {
 			if i < len(args) {
 				env.vars[n] = args[i]
+			}
+		}
+	}
+	// facts about package-level variables established by init (proved in the unit <pkg>.init)
+	if fn.Name() != "init" {
+		for _, ax := range e.cs.Axioms {
+			if longPkg(ax.Pkg) == fn.Pkg.Pkg.Path() {
+				aenv := &Env{vars: map[string]Val{}, cur: x.old, old: x.old, pkg: fn.Pkg.Pkg, x: x, freshLo: "allocBase0"}
+				x.sc.assert(x.trBool(ax.Expr, aenv))
 			}
 		}
 	}
